@@ -13,6 +13,7 @@ import (
 //
 //	index [i]            recv[i]
 //	slice [a,b,c]        recv[a:b:c]           (None = operand omitted)
+//	setitem [i,v]        recv[i] = v           (reports (None; the list afterwards))
 //	add [y] mul [y]      recv + y, recv * y
 //	interp [x]           recv % x
 //	m:<name> args        string/bytes method; m:format takes [tuple of positionals, dict of keywords];
@@ -37,6 +38,8 @@ def _slice(x, a, b, c): return x[a:b:c]
 def _add(x, y): return x + y
 def _mul(x, y): return x * y
 def _interp(x, y): return x % y
+def _setitem(x, i, v):
+    x[i] = v
 _neg = lambda x: -x
 _last = lambda x: x[-1]
 _zero = lambda x: 0
@@ -116,6 +119,18 @@ func (env *execEnv) direct1(it *item) outcome {
 			return errOutcome(err)
 		}
 		return valOutcome(v)
+	case it.op == "setitem":
+		v, err := env.call(env.helpers["_setitem"], starlark.Tuple{recv, it.args[0].star(env), it.args[1].star(env)}, nil)
+		if err != nil {
+			return errOutcome(err)
+		}
+		var sb strings.Builder
+		sb.WriteString("M(")
+		canonStar(&sb, v)
+		sb.WriteByte(';')
+		canonStar(&sb, recv)
+		sb.WriteByte(')')
+		return outcome{canon: sb.String()}
 	case strings.HasPrefix(it.op, "m:") || strings.HasPrefix(it.op, "l:"):
 		name := it.op[2:]
 		ha, ok := recv.(starlark.HasAttrs)
@@ -231,6 +246,15 @@ func (it *item) source() (src string, expr bool) {
 		sb.WriteString(map[string]string{"add": ") + (", "mul": ") * (", "interp": ") % ("}[it.op])
 		it.args[0].src(&sb)
 		sb.WriteByte(')')
+	case it.op == "setitem":
+		sb.WriteString("x = ")
+		it.recv.src(&sb)
+		sb.WriteString("\nx[")
+		it.args[0].src(&sb)
+		sb.WriteString("] = ")
+		it.args[1].src(&sb)
+		sb.WriteString("\nr = None\n")
+		return sb.String(), false
 	case strings.HasPrefix(it.op, "l:") && listMutators[it.op[2:]]:
 		sb.WriteString("x = ")
 		it.recv.src(&sb)
@@ -346,7 +370,7 @@ func (it *item) opGroup() string {
 		typ = "value"
 	}
 	switch {
-	case it.op == "index", it.op == "slice":
+	case it.op == "index", it.op == "slice", it.op == "setitem":
 		return typ + " " + it.op
 	case it.op == "add":
 		return typ + " +"
@@ -380,7 +404,19 @@ func (it *item) opGroup() string {
 // argClass summarises the shape of the arguments relative to the receiver length n (for violation keys):
 // it never contains the concrete operands.
 func (it *item) argClass() string {
-	n := int64(it.recv.seqLen())
+	if it.op == "slice" {
+		// one key per (receiver type, direction): start/stop shapes would split one root cause over hundreds of keys
+		st := it.args[2]
+		switch {
+		case st.k == 'N':
+			return "(default stride)"
+		case st.k == 'I' && st.i > 0:
+			return "(positive stride)"
+		case st.k == 'I' && st.i < 0:
+			return "(negative stride)"
+		}
+		return "(other stride)"
+	}
 	var parts []string
 	var cls func(a val) string
 	cls = func(a val) string {
@@ -390,24 +426,12 @@ func (it *item) argClass() string {
 		case 'T':
 			return "bool"
 		case 'G':
-			return "beyond-int64"
+			return "outside-int32"
 		case 'I':
-			switch {
-			case a.i >= 1<<31 || a.i <= -(1<<31):
-				return "huge"
-			case a.i == 0:
-				return "0"
-			case a.i < -n:
-				return "<-n"
-			case a.i < 0:
-				return "neg"
-			case a.i > n:
-				return ">n"
-			case a.i == n:
-				return "n"
-			default:
-				return "pos"
+			if a.i >= 1<<31 || a.i < -(1<<31) {
+				return "outside-int32"
 			}
+			return "int"
 		case 'F':
 			return "float"
 		case 'S', 'B':
